@@ -71,7 +71,7 @@ def main():
             src_dir = os.path.join(OUT, prop, variant)
             if not os.path.isfile(os.path.join(src_dir, "patch.diff")) or not os.path.isfile(os.path.join(src_dir, "demo.py")):
                 continue
-            letters = {1: dict(A='A', B='B'), 2: dict(A='C', B='D'), 3: dict(A='E', B='F'), 4: dict(A='G', B='H')}[a.round]
+            letters = {1: dict(A='A', B='B'), 2: dict(A='C', B='D'), 3: dict(A='E', B='F'), 4: dict(A='G', B='H'), 5: dict(A='I', B='J')}[a.round]
             sid = prop + "-" + letters.get(variant, variant + (str(a.round) if a.round > 1 else ""))
             if only and sid not in only:
                 continue
@@ -96,7 +96,7 @@ def main():
                 meta.update({
                     "id": sid, "property": prop, "summary": agent_meta.get("summary"), "needs": agent_meta.get("needs"),
                     "files": agent_meta.get("files"), "why_tests_pass": agent_meta.get("why_tests_pass"),
-                    "origin": "independent sub-agent given only the property text and its own scratch worktree" + ({2: " (second round, on the repaired tree)", 3: " (third round, on the repaired tree)", 4: " (fourth round, with a hint to prefer less obvious code paths)"}.get(a.round, "")),
+                    "origin": "independent sub-agent given only the property text and its own scratch worktree" + ({2: " (second round, on the repaired tree)", 3: " (third round, on the repaired tree)", 4: " (fourth round, with a hint to prefer less obvious code paths)", 5: " (fifth round, same hint, twelve properties)"}.get(a.round, "")),
                     "rebased_on": sh("git -C /repo rev-parse --short HEAD").stdout.strip(),
                     "demo_on_current_tree": {"exit": rc0, "last_line": out0},
                     "demo_with_patch": {"exit": rc1, "last_line": out1},
